@@ -45,6 +45,7 @@ func (v vclock) join(o vclock) vclock {
 }
 
 type shadowCell struct {
+	wWhere     string
 	wTid, wClk int
 	wPos       token.Pos
 	hasW       bool
@@ -150,7 +151,7 @@ func (m *Machine) raceCheck(fr *frame, sh *shadowCell, t *thread, write bool, wh
 		}
 		s := m.sched
 		label := "race"
-		msg := fmt.Sprintf("data race (%s) on %s in %s between g%d and g%d", kind, what, m.where(fr), t.id, otherTid)
+		msg := fmt.Sprintf("data race (%s) on %s in %s between g%d and g%d (last write in %s)", kind, what, m.where(fr), t.id, otherTid, sh.wWhere)
 		for _, v := range m.ps.viol {
 			if v.Kind == "race" {
 				return // one report per path is enough
@@ -173,6 +174,7 @@ func (m *Machine) raceCheck(fr *frame, sh *shadowCell, t *thread, write bool, wh
 			}
 		}
 		sh.hasW = true
+		sh.wWhere = m.where(fr)
 		sh.wTid = t.id
 		sh.wClk = t.vc.get(t.id)
 		sh.reads = nil
